@@ -251,6 +251,30 @@ func (e *Env) localVars(st *State, fr *Frame) map[string]Val {
 			}
 		}
 	}
+	// variables that live in memory (named results with a defer, address-taken locals): their current value
+	// is the content of the cell, not whichever load of it was executed first
+	named := map[string]bool{}
+	if res := fr.fn.Signature.Results(); res != nil {
+		for i := 0; i < res.Len(); i++ {
+			named[res.At(i).Name()] = true
+		}
+	}
+	for _, b := range fr.fn.Blocks {
+		for _, ins := range b.Instrs {
+			a, ok := ins.(*ssa.Alloc)
+			if !ok || a.Comment == "" || a.Comment == "complit" || a.Comment == "varargs" || a.Comment == "_" {
+				continue
+			}
+			if v, ok := fr.regs[a]; ok && v.K == kPtr && v.Nil == "" {
+				if _, isParam := vars[a.Comment]; isParam && !named[a.Comment] {
+					// spilled parameter copies keep the parameter's entry value semantics unless reassigned: use the cell
+				}
+				if _, present := st.cells[v.Ptr.Cell]; present {
+					vars[a.Comment] = e.load(st, v.Ptr)
+				}
+			}
+		}
+	}
 	return vars
 }
 
@@ -378,6 +402,13 @@ func verifyFunc(p *Program, cx *Contracts, cfg *PropConfig, ct *Contract) *FuncR
 			}
 			g := post.evalBool(en.Expr)
 			if e.err != nil {
+				if strings.Contains(e.err.Error(), "callres: no call of") {
+					// the clause speaks about the result of a call this (reachable?) path never makes: it fails on
+					// this path unless the path is infeasible - the goal is "false" under the path condition
+					e.err = nil
+					e.oblige(o.st, "post", en.Label, "false", en.Text+"  [the call whose result the clause refers to is not made on this path]", fn.Pos())
+					continue
+				}
 				// a clause that cannot be evaluated on this path is reported as undecided, the others are still checked
 				res.ClauseErrs = append(res.ClauseErrs, fmt.Sprintf("%s/post:%s: %v", e.curName, en.Label, e.err))
 				e.err = nil
